@@ -20,7 +20,7 @@ import (
 func VxC03ViewBeforeDeployment() {
 	vx.Bound("one contract deployed at a symbolic 64-bit height d with a symbolic class hash (nonce 0), 1..2 later writes (storage slot | nonce | class replacement) at symbolic heights > d; queried height symbolic; stateHistory wrapper of the new backend")
 	d := memory.New()
-	sr := &StateReader{db: &StateDB{disk: d}}
+	sr := vxReaderOn(d)
 	addr := felt.NewFromUint64[felt.Felt](0x1000)
 	slot := felt.NewFromUint64[felt.Felt](0x20)
 	dep := vx.U64("deployed-at")
